@@ -69,8 +69,9 @@ def _is_negative(test: ast.expr) -> bool:
 class _Simplify(ast.NodeTransformer):
     """steps 1, 2, 5, 6, 7 (expression level and single statements)"""
 
-    def __init__(self, signatures: dict[str, list[str]]) -> None:
+    def __init__(self, signatures: dict[str, list[str]], de_morgan: bool = False) -> None:
         self.sig = signatures
+        self.de_morgan = de_morgan
 
     def visit_FunctionDef(self, node: ast.FunctionDef) -> ast.AST:
         self.generic_visit(node)
@@ -89,15 +90,36 @@ class _Simplify(ast.NodeTransformer):
         return ast.Assign([node.target], node.value)
 
     def visit_UnaryOp(self, node: ast.UnaryOp) -> ast.AST:
+        if self.de_morgan and isinstance(node.op, ast.Not) and isinstance(node.operand, ast.BoolOp):
+            # not (a or b) -> not a and not b ; not (a and b) -> not a or not b   (after the if-statements have their polarity)
+            inner = node.operand
+            return self.visit(ast.BoolOp(ast.Or() if isinstance(inner.op, ast.And) else ast.And(), [ast.UnaryOp(ast.Not(), v) for v in inner.values]))
         self.generic_visit(node)
         if isinstance(node.op, ast.Not):
             o = node.operand
             if isinstance(o, ast.Compare) and len(o.ops) == 1 and type(o.ops[0]) in _NEG:
                 return ast.Compare(o.left, [_NEG[type(o.ops[0])]()], o.comparators)
+            if isinstance(o, ast.UnaryOp) and isinstance(o.op, ast.Not) and isinstance(o.operand, (ast.Compare, ast.BoolOp)):
+                return o.operand  # not not <bool-valued>
+        return node
+
+    def visit_BoolOp(self, node: ast.BoolOp) -> ast.AST:
+        self.generic_visit(node)
+        flat: list[ast.expr] = []
+        for v in node.values:
+            flat.extend(v.values if isinstance(v, ast.BoolOp) and type(v.op) is type(node.op) else [v])
+        node.values = flat
         return node
 
     def visit_Compare(self, node: ast.Compare) -> ast.AST:
         self.generic_visit(node)
+        if len(node.ops) > 1 and all(_pure(c) for c in node.comparators[:-1]):
+            # a OP x OP2 b  ->  a OP x and x OP2 b   (x call-free: evaluating it twice cannot be observed)
+            parts, left = [], node.left
+            for op, right in zip(node.ops, node.comparators):
+                parts.append(self.visit_Compare(ast.Compare(left, [op], [right])))
+                left = copy.deepcopy(right)
+            return ast.BoolOp(ast.And(), parts)
         if len(node.ops) == 1:
             op, l, r = node.ops[0], node.left, node.comparators[0]
             if isinstance(op, (ast.In, ast.NotIn)) and isinstance(r, ast.List):
@@ -128,14 +150,30 @@ class _Simplify(ast.NodeTransformer):
         return node
 
 
-def _if_pass(block: list[ast.stmt]) -> list[ast.stmt]:
+def _if_pass(block: list[ast.stmt], loop_body: bool = False) -> list[ast.stmt]:
     """step 3 on one block (nested blocks first)"""
+    # return A if c else B  ->  if c: return A ; return B         x = A if c else B  ->  if c: x = A else: x = B
+    pre: list[ast.stmt] = []
+    for st in block:
+        if isinstance(st, ast.Return) and isinstance(st.value, ast.IfExp):
+            pre += [ast.If(st.value.test, [ast.Return(st.value.body)], []), ast.Return(st.value.orelse)]
+        elif isinstance(st, ast.Assign) and isinstance(st.value, ast.IfExp) and len(st.targets) == 1 and isinstance(st.targets[0], ast.Name):
+            pre.append(ast.If(st.value.test, [ast.Assign([st.targets[0]], st.value.body)], [ast.Assign([copy.deepcopy(st.targets[0])], st.value.orelse)]))
+        else:
+            pre.append(st)
+    block = pre
+    # in a loop body: `if c: continue` followed by the rest of the body  ->  if <not c>: rest
+    if loop_body:
+        for i, st in enumerate(block):
+            if isinstance(st, ast.If) and not st.orelse and len(st.body) == 1 and isinstance(st.body[0], ast.Continue) and block[i + 1:]:
+                block = block[:i] + [ast.If(negate(st.test), block[i + 1:], [])]
+                break
     out: list[ast.stmt] = []
     for st in block:
         for f in ("body", "orelse", "finalbody"):
             v = getattr(st, f, None)
             if isinstance(v, list) and v and isinstance(v[0], ast.stmt):
-                setattr(st, f, _if_pass(v))
+                setattr(st, f, _if_pass(v, loop_body=isinstance(st, (ast.For, ast.While)) and f == "body"))
         if isinstance(st, ast.Try):
             for h in st.handlers:
                 h.body = _if_pass(h.body)
@@ -362,6 +400,7 @@ def canonical_function(fn: ast.FunctionDef, signatures: dict[str, list[str]]) ->
     # temporaries may have uncovered new negations / nested ifs
     f = _Simplify(signatures).visit(f)
     f.body = _if_pass(f.body) or [ast.Pass()]
+    f = _Simplify(signatures, de_morgan=True).visit(f)
     _alpha(f)
     f = _Orient().visit(f)
     return ast.fix_missing_locations(f)
@@ -408,7 +447,7 @@ def inline_new_temps(fn: ast.FunctionDef, ref: ast.FunctionDef) -> int:
     return _inline_temps(fn, only=new_names) if new_names else 0
 
 
-def toward_reference(fn: ast.FunctionDef, ref: ast.FunctionDef, signatures: dict[str, list[str]]) -> list[str]:
+def toward_reference(fn: ast.FunctionDef, ref: ast.FunctionDef, signatures: dict[str, list[str]], keep_kw: set | None = None) -> list[str]:
     """A known function that really changed (its canonical form differs from the reference's).  The parts the change did not touch may still
     be spelled differently; each rewrite below is one of the canonical steps, applied in place and only in the direction of the reference
     spelling (decided by what the reference function contains), so that the rules meet the change itself and not the noise around it.
@@ -418,8 +457,12 @@ def toward_reference(fn: ast.FunctionDef, ref: ast.FunctionDef, signatures: dict
     for n in ast.walk(ref):
         if isinstance(n, ast.If):
             ref_ifs.setdefault(ast.unparse(n.test), []).append(n)
+    if any(isinstance(n, ast.If) and len(n.body) == 1 and isinstance(n.body[0], ast.Continue) for n in ast.walk(ref)):
+        ref_ifs["<continue-guard>"] = [ast.If(ast.Constant(True), [], [])]  # the reference function skips with `if ...: continue` itself
+    if any(isinstance(n, ast.Return) and isinstance(n.value, ast.IfExp) for n in ast.walk(ref)):
+        ref_ifs["<ifexp-return>"] = [ast.If(ast.Constant(True), [], [])]
     ref_text = {ast.unparse(n) for n in ast.walk(ref) if isinstance(n, (ast.Compare, ast.AugAssign, ast.Assign))}
-    ref_kw = {(n.func.id, k.arg) for n in ast.walk(ref) if isinstance(n, ast.Call) and isinstance(n.func, ast.Name) for k in n.keywords}
+    ref_kw = {(n.func.id, k.arg) for n in ast.walk(ref) if isinstance(n, ast.Call) and isinstance(n.func, ast.Name) for k in n.keywords} | (keep_kw or set())
     # -- renamed locals: a new name takes the reference name under which most of its statements read as reference statements
     mine, theirs = _locals_of(fn) - _params_of(fn), _locals_of(ref) - _params_of(ref)
     added, gone = sorted(mine - theirs), sorted(theirs - mine)
@@ -499,7 +542,7 @@ def toward_reference(fn: ast.FunctionDef, ref: ast.FunctionDef, signatures: dict
             if len(node.targets) == 1 and isinstance(node.targets[0], ast.Name) and isinstance(v, ast.BinOp) and isinstance(v.op, (ast.Add, ast.Sub)) \
                     and isinstance(v.left, ast.Name) and v.left.id == node.targets[0].id and isinstance(v.right, ast.Constant) and type(v.right.value) is int:
                 cand = ast.AugAssign(ast.Name(v.left.id, ast.Store()), v.op, v.right)
-                if _u(cand) in ref_text and ast.unparse(node) not in ref_text:
+                if ast.unparse(node) not in ref_text:  # the reference's spelling, or for a statement it does not have the augmented one used throughout
                     notes.append("augmented assignment")
                     return cand
             return node
@@ -530,8 +573,32 @@ def toward_reference(fn: ast.FunctionDef, ref: ast.FunctionDef, signatures: dict
     return notes
 
 
-def _shape_blocks(block: list[ast.stmt], ref_ifs: dict[str, list[ast.If]], notes: list[str], elif_pos: bool = False) -> list[ast.stmt]:
+def _shape_blocks(block: list[ast.stmt], ref_ifs: dict[str, list[ast.If]], notes: list[str], elif_pos: bool = False, loop_body: bool = False) -> list[ast.stmt]:
     """if statements get the layout the reference uses for the same test (unique match by test text): polarity, else vs guard clause"""
+    # return A if c else B  ->  if c: return A ; return B      (unless the reference returns conditional expressions itself)
+    if not ref_ifs.get("<ifexp-return>"):
+        pre: list[ast.stmt] = []
+        for st in block:
+            if isinstance(st, ast.Return) and isinstance(st.value, ast.IfExp):
+                pre += [ast.If(st.value.test, [ast.Return(st.value.body)], []), ast.Return(st.value.orelse)]
+                notes.append("conditional return -> if")
+            else:
+                pre.append(st)
+        block = pre
+    # loop body: `if c: continue` + rest  <->  `if not c: rest`, whichever the reference has for that test
+    if loop_body:
+        for j, st in enumerate(block):
+            if isinstance(st, ast.If) and not st.orelse and len(st.body) == 1 and isinstance(st.body[0], ast.Continue) and block[j + 1:] \
+                    and ast.unparse(st.test) not in ref_ifs and _u(negate(st.test)) in ref_ifs:
+                block = block[:j] + [ast.If(negate(st.test), block[j + 1:], [])]
+                notes.append("continue guard -> if")
+                break
+        if block and isinstance(block[-1], ast.If) and not block[-1].orelse and ast.unparse(block[-1].test) not in ref_ifs:
+            neg = _u(negate(block[-1].test))
+            if len(ref_ifs.get(neg, [])) == 1 and len(ref_ifs[neg][0].body) == 1 and isinstance(ref_ifs[neg][0].body[0], ast.Continue):
+                last = block[-1]
+                block = block[:-1] + [ast.If(negate(last.test), [ast.Continue()], [])] + last.body
+                notes.append("if -> continue guard")
     out: list[ast.stmt] = []
     i = 0
     while i < len(block):
@@ -539,7 +606,7 @@ def _shape_blocks(block: list[ast.stmt], ref_ifs: dict[str, list[ast.If]], notes
         for f in ("body", "orelse", "finalbody"):
             v = getattr(st, f, None)
             if isinstance(v, list) and v and isinstance(v[0], ast.stmt):
-                setattr(st, f, _shape_blocks(v, ref_ifs, notes, elif_pos=isinstance(st, ast.If) and f == "orelse" and len(v) == 1 and isinstance(v[0], ast.If)))
+                setattr(st, f, _shape_blocks(v, ref_ifs, notes, loop_body=isinstance(st, (ast.For, ast.While)) and f == "body", elif_pos=isinstance(st, ast.If) and f == "orelse" and len(v) == 1 and isinstance(v[0], ast.If)))
         if isinstance(st, ast.Try):
             for h in st.handlers:
                 h.body = _shape_blocks(h.body, ref_ifs, notes)
@@ -607,3 +674,54 @@ def _shape_blocks(block: list[ast.stmt], ref_ifs: dict[str, list[ast.If]], notes
         out.append(st)
         i += 1
     return out
+
+
+_LOG_METHODS = {"debug"}  # only what a user never sees by default: error / warning / info texts are output the properties speak about (C17, C14)
+_LOG_ROOTS = ("logging.", "logger.", "self.logger.", "log.", "_logger.", "LOGGER.", "LOG.")
+_PURE_CALLS = {"str", "repr", "len", "hex", "int", "type", "format", "id"}
+
+
+def _is_log_statement(st: ast.stmt) -> bool:
+    """`logging.getLogger(...).debug(...)`, `logger.info(...)`, `self.logger.error(...)` with arguments that only read"""
+    if not (isinstance(st, ast.Expr) and isinstance(st.value, ast.Call) and isinstance(st.value.func, ast.Attribute) and st.value.func.attr in _LOG_METHODS):
+        return False
+    recv = st.value.func.value
+    text = ast.unparse(recv) + "."
+    if not (text.startswith(_LOG_ROOTS) or text.startswith("logging.getLogger(")):
+        return False
+    for a in list(st.value.args) + [k.value for k in st.value.keywords]:
+        for n in ast.walk(a):
+            if isinstance(n, (ast.NamedExpr, ast.Await, ast.Yield, ast.YieldFrom)):
+                return False
+            if isinstance(n, ast.Call) and not (isinstance(n.func, ast.Name) and n.func.id in _PURE_CALLS):
+                return False
+    return True
+
+
+def drop_new_log_statements(fn: ast.FunctionDef, ref: ast.FunctionDef) -> int:
+    """debug-level logging statements the reference function does not have are removed: a trace line is not part of any property
+    (error, warning and info messages are: they stay, whether the reference has them or not)"""
+    ref_logs = {ast.unparse(n) for n in ast.walk(ref) if isinstance(n, ast.Expr) and _is_log_statement(n)}
+    n = 0
+
+    def visit(block: list[ast.stmt]) -> list[ast.stmt]:
+        nonlocal n
+        out = []
+        for st in block:
+            for f in ("body", "orelse", "finalbody"):
+                v = getattr(st, f, None)
+                if isinstance(v, list) and v and isinstance(v[0], ast.stmt):
+                    setattr(st, f, visit(v) or [ast.Pass()])
+            if isinstance(st, ast.Try):
+                for h in st.handlers:
+                    h.body = visit(h.body) or [ast.Pass()]
+            if _is_log_statement(st) and ast.unparse(st) not in ref_logs:
+                n += 1
+                continue
+            out.append(st)
+        return out
+
+    fn.body = visit(fn.body) or [ast.Pass()]
+    if n:
+        ast.fix_missing_locations(fn)
+    return n
